@@ -49,10 +49,16 @@ def cells(tier, seed):
             for (Rc, Rx) in ((1, 1), (1, 3), (3, 1)):
                 out.append({"pair": "cond:" + pair, "Dx": Dx, "Dy": Dy, "Rc": Rc, "Rx": Rx,
                             "reps": reps, "group": [pair, Dx, Dy, Rc, Rx], "cost": 2.0})
+            # a precise observation of a vague state: prior covariance 1e10 x noise covariance,
+            # each matrix well conditioned on its own
+            if pair.startswith("identity"):
+                out.append({"pair": "cond:" + pair, "Dx": Dx, "Dy": Dy, "Rc": 1, "Rx": 1,
+                            "vague": 1e10, "reps": reps, "group": [pair, Dx, Dy, "vague"],
+                            "cost": 1.0})
     return out
 
 
-def both(rec, name, f_spec, f_gen, info, pair, common_only=False):
+def both(rec, name, f_spec, f_gen, info, pair, common_only=False, relative=False):
     """run the same call on both sides and compare."""
     rec.cell([pair, name, info.get("R", info.get("Rc")), info.get("D", info.get("Dx")),
               info.get("Rx")], True)
@@ -80,7 +86,25 @@ def both(rec, name, f_spec, f_gen, info, pair, common_only=False):
         keys = set(pa) & set(pb)
         pa = {k: pa[k] for k in keys}
         pb = {k: pb[k] for k in keys}
-    _cmp(rec, f"{pair}.{name}", pa, pb, inf, f"differs:{pair}:{name}")
+    if relative:
+        _cmp_rel(rec, f"{pair}.{name}", pa, pb, inf, f"differs:{pair}:{name}")
+    else:
+        _cmp(rec, f"{pair}.{name}", pa, pb, inf, f"differs:{pair}:{name}")
+
+
+def _cmp_rel(rec, name, pa, pb, info, mech):
+    """entry-wise agreement relative to the size of each array (no absolute '1 +'): used where the
+    quantities compared are far from unit scale."""
+    if isinstance(pa, list):
+        for i, (x, y) in enumerate(zip(pa, pb)):
+            _cmp_rel(rec, f"{name}[{i}]", x, y, info, mech)
+        return
+    if isinstance(pa, dict):
+        for k in sorted(set(pa) & set(pb)):
+            rec.close(f"{name}.{k}", pa[k], pb[k], ns=np.max(np.abs(pb[k])) + 1e-300,
+                      detail=info, mech=mech)
+        return
+    rec.close(name, pa, pb, ns=np.max(np.abs(pb)) + 1e-300, detail=info, mech=mech)
 
 
 def measure_ops(rec, rng, s, g, t, info, pair, is_pdf):
@@ -264,6 +288,25 @@ def run_cond_pair(cell, rec, seed):
         s, t, kw = build.mk_conditional(pair, rng, Rc, Dy, Dx, kappa=float(rng.choice(
             gen.KAPPAS[:4])))
         g = C.ConditionalGaussianPDF(M=J(t.M), b=J(t.b), Sigma=J(t.Sigma))
+        vague = cell.get("vague")
+        if vague:
+            s0 = float(np.mean(np.diagonal(t.Sigma, axis1=1, axis2=2)))
+            p, tp = build.mk_pdf(rng, Rx, Dx, kappa=10.0, scale=s0 * vague)
+            # the posterior (gain, offset, covariance) and the predictive moments are well
+            # conditioned functions of the inputs here (full-rank identity map): compared on
+            # their own scale. Natural parameters (nu, ln_beta) of the results carry huge
+            # cancelling terms in this regime and are not judged.
+            def pick(o, names):
+                return {n: np.asarray(getattr(o, n)) for n in names}
+            both(rec, "affine_conditional_transformation[vague prior]",
+                 lambda: pick(s.affine_conditional_transformation(p, **kw), ("M", "b", "Sigma")),
+                 lambda: pick(g.affine_conditional_transformation(p), ("M", "b", "Sigma")),
+                 dict(info, vague=vague), "cond:" + pair, relative=True)
+            both(rec, "affine_marginal_transformation[vague prior]",
+                 lambda: pick(s.affine_marginal_transformation(p, **kw), ("mu", "Sigma")),
+                 lambda: pick(g.affine_marginal_transformation(p), ("mu", "Sigma")),
+                 dict(info, vague=vague), "cond:" + pair, relative=True)
+            continue
         p, tp = build.mk_pdf(rng, Rx, Dx, kappa=float(rng.choice(gen.KAPPAS[:4])))
         x = J(gen.points(rng, 3, tp.mu, tp.Sigma))
         N = Rc if Rc > 1 else 4
